@@ -82,8 +82,41 @@ def chained_variants(rng, s):
     return out
 
 
+def probe_d45():
+    """a plain callback of a machine without coroutine callbacks *returns* an awaitable as its value: `send()` takes
+    the event's result for the engine's own coroutine, runs it and hands back what it returns"""
+    import inspect
+    import warnings
+    from statemachine import State, StateMachine
+    with warnings.catch_warnings():
+        warnings.simplefilter("ignore")
+
+        class M(StateMachine):
+            a = State(initial=True)
+            b = State()
+            go = a.to(b)
+
+            def on_go(self):
+                async def later():
+                    return 42
+                return later()
+        r = M().go()
+    bad = not inspect.isawaitable(r)
+    if not bad:
+        r.close()
+    return bad, f"sm.go() returned {r!r} instead of the coroutine object the only `on` callback returned"
+
+
 def run(ctx):
     lean_obligations(ctx)
+    from framework import known_findings
+    known = {k.get("exclusion"): k for k in known_findings("C14") if k.get("status") == "known"}
+    bad, what = probe_d45()
+    if bad:
+        if "callback-returning-an-awaitable" in known:
+            ctx.known_printed.append(known["callback-returning-an-awaitable"]["what"] + " [" + what + "]")
+        else:
+            ctx.violation(ctx.write_replay("callback_returning_an_awaitable.txt", what + "\n"), what[:160])
     from framework import safe_probe
     from props.c12 import probe_names_like_machine_attributes
     pf = safe_probe(probe_names_like_machine_attributes, f"{ctx.seed}:c14")
